@@ -6,7 +6,7 @@ set -u
 SR=${SEED_REPO:-/tmp/wt/benignrepo}; VS=${SEED_VERIF:-/tmp/verif_benign}
 mkdir -p /tmp/wt
 if [ ! -d $SR ]; then git -C /repo worktree prune; git -C /repo worktree add --detach $SR HEAD > /dev/null; fi
-git -C $SR checkout -q -- . ; git -C $SR checkout -q --detach $(git -C /repo rev-parse HEAD)
+git -C $SR checkout -q -- . ; git -C $SR checkout -q --detach $(git -C /repo rev-parse ${SEED_BASE:-HEAD})    # SEED_BASE: an older commit for patches written against it
 rsync -a --delete --exclude _work --exclude .git --exclude replays /verif/ $VS/
 mkdir -p $VS/_work
 names="$@"; [ -z "$names" ] && names=$(ls /verif/seeded/benign)
